@@ -212,7 +212,7 @@ func Execute(t *testing.T, w *Workload, picker core.Picker, maxSteps int) *Outco
 	}
 	for _, ft := range w.Faults {
 		switch ft.Kind {
-		case "garbage-import", "garbage-body", "garbage-bracket", "bad-foreign", "truncate", "flip", "empty", "undetectable-format":
+		case "garbage-import", "garbage-body", "garbage-bracket", "bad-escape", "bad-foreign", "truncate", "flip", "empty", "undetectable-format":
 			o.Fired.Inc(ft.Kind) // content faults are delivered with the content
 		}
 	}
